@@ -116,7 +116,11 @@ class CallbackSpec:
         return name
 
     def __eq__(self, other):
-        return self.func == other.func and self.group == other.group
+        return (
+            self.func == other.func
+            and self.group == other.group
+            and self.expected_value == other.expected_value
+        )
 
     def __hash__(self):
         return id(self)
@@ -281,6 +285,9 @@ class CallbacksExecutor:
         return ", ".join(str(c) for c in self)
 
     def add(self, key: str, spec: CallbackSpec, builder: Callable[[], Callable]):
+        if spec.expected_value is not None:
+            # the same guard may be required to hold (cond) and not to hold (unless)
+            key = f"{key}:{spec.expected_value}"
         if key in self.items_already_seen:
             return
 
